@@ -981,11 +981,35 @@ def _store_ops(tr: Tr, cls: ast.ClassDef, dict_attr: str):
     tr.err(init, f'no assignment to self.{dict_attr}')
 
 
+def _comp_as_loop(st):
+    """`return iter([E for T in I if C])`, `return (E for ...)`, `yield from (E for ...)` / `[E for ...]` as the loop
+    `for T in I: if C: yield E` (the table is never changed after the constructor: listing it eagerly or lazily is the same)."""
+    e = None
+    if isinstance(st, ast.Return) and st.value is not None:
+        e = st.value
+    elif isinstance(st, ast.Expr) and isinstance(st.value, ast.YieldFrom):
+        e = st.value.value
+    if e is None:
+        return None
+    if isinstance(e, ast.Call) and _name(e.func) == 'iter' and len(e.args) == 1 and not e.keywords:
+        e = e.args[0]
+    if isinstance(e, (ast.ListComp, ast.GeneratorExp)) and len(e.generators) == 1 and not e.generators[0].is_async \
+            and len(e.generators[0].ifs) == 1:
+        g = e.generators[0]
+        loop = ast.For(target=g.target, iter=g.iter, orelse=[],
+                       body=[ast.If(test=g.ifs[0], orelse=[], body=[ast.Expr(value=ast.Yield(value=e.elt))])])
+        return ast.fix_missing_locations(ast.copy_location(loop, st))
+    return None
+
+
 def _walk(tr: Tr, cls: ast.ClassDef, dict_attr: str):
     fn = tr.method(cls, 'walk_folder')
     env = {'folder': ('folder', [])}
     loop = None
-    for st in fn.body:
+    stmts = list(fn.body)
+    if stmts and _comp_as_loop(stmts[-1]) is not None:
+        stmts[-1] = _comp_as_loop(stmts[-1])
+    for st in stmts:
         if isinstance(st, ast.Expr) and isinstance(st.value, ast.Constant):
             continue
         if tr._stmt(st, env):
@@ -999,10 +1023,16 @@ def _walk(tr: Tr, cls: ast.ClassDef, dict_attr: str):
     it = loop.iter
     src = 'WDict'
     container = CONTAINERS.get(cls.name)
+
+    def obj(node):
+        # a local that was bound (once, before the loop) to an attribute of self names the same object
+        if isinstance(node, ast.Name) and env.get(node.id) is not None and not env[node.id][1] and env[node.id][0].startswith('self.'):
+            return env[node.id][0]
+        return _dotted(node)
     if (isinstance(it, ast.Call) and isinstance(it.func, ast.Attribute) and it.func.attr in ('items', 'values')
-            and _dotted(it.func.value) == f'self.{dict_attr}' and not it.args and not it.keywords):
+            and obj(it.func.value) == f'self.{dict_attr}' and not it.args and not it.keywords):
         mode = it.func.attr
-    elif container is not None and _dotted(it) == f'self.{container}':
+    elif container is not None and obj(it) == f'self.{container}':
         # `for file in self.vpk`: every file of the container, case-duplicates included
         src, mode = 'WCont None', 'values'
     elif (container is not None and isinstance(it, ast.Call) and _dotted(it.func) == f'self.{container}.fileinfos'
